@@ -4,7 +4,7 @@ import time
 import z3
 
 
-def check_obligation(o, timeout_ms=10000, seed=0):
+def check_obligation(o, timeout_ms=10000, seed=0, linear_only=False):
     t0 = time.time()
     g = z3.simplify(o.goal) if z3.is_expr(o.goal) else o.goal
     if z3.is_true(g):
@@ -13,6 +13,10 @@ def check_obligation(o, timeout_ms=10000, seed=0):
     s.set("timeout", timeout_ms)
     if seed:
         s.set("random_seed", seed)
+    if linear_only:
+        # products of two variables are left uninterpreted: every refutation found this way is also a
+        # refutation in real arithmetic (sound for `unsat`); `sat` answers are not used
+        s.set("arith.nl", False)
     for a in o.assumes:
         s.add(a)
     s.add(z3.Not(o.goal))
@@ -33,11 +37,15 @@ def check_obligation(o, timeout_ms=10000, seed=0):
 def check_with_retry(o, timeout_ms):
     r = check_obligation(o, timeout_ms)
     if r["status"] == "unknown":
-        # second attempt: different seed and a simplify/solve-eqs preprocessed goal
+        # second attempt: nonlinear arithmetic switched off (stable on large contexts; sound for unsat)
+        r1 = check_obligation(o, timeout_ms, linear_only=True)
+        if r1["status"] == "unsat":
+            r1["time"] += r["time"]
+            r1["solver"] += " (arith.nl=false)"
+            return r1
+        # third attempt: different seed
         r2 = check_obligation(o, timeout_ms, seed=7)
-        r2["time"] += r["time"]
-        if r2["status"] != "unknown":
-            return r2
+        r2["time"] += r["time"] + r1["time"]
         return r2
     return r
 
